@@ -322,11 +322,11 @@ func crashClass(se string) (cls string, excerpt string) {
 
 func supervise(c *ev.Ctx) {
 	thorough := !c.Quick()
-	c.Rule("(1) wire faults — for each of 11 (thorough 20) configurations (TLS 1.0-1.3, RSA/ECDHE/DHE, client auth, resumption, zcrypto scan extras, ExternalClientHello, ClientFingerprintConfiguration+CertsOnly) the baseline transcript of real client<->real server (handshake + data phase), then EVERY fault of the menu {xor 01/80, set 00/ff at each offset (quick: every offset in the first 96 / last 24 bytes of each record, stride 5 elsewhere; coarser on the server flight of the two ClientHello-construction configurations), truncate, drop/dup/swap record, 13 inserted records at every boundary, record length/type/version values, handshake type/length values, record split/coalesce, read segmentation} as a single fault. " +
-		"(2) keyed faults — for each of 8 (thorough 16) keyed configurations (TLS 1.3 with each of its 3 suites incl. client auth, PSK resumption, tickets, ALPN/OCSP/SCT; TLS 1.0-1.2 with GCM, ChaCha20, CBC implicit/explicit IV, 3DES, RC4, renegotiation allowed) every PROTECTED record of the baseline (TLS 1.3: EncryptedExtensions, CertificateRequest, Certificate, CertificateVerify, Finished, NewSessionTicket, client Certificate/CertificateVerify/Finished, data, alerts; TLS<=1.2: both Finished, data, alerts) is opened in flight with the KeyLogWriter secrets, edited in plaintext and re-sealed under the receiver's keys and sequence number: drop, duplicate, swap/coalesce with the next record, fragmentation (quick 7 offsets, thorough every offset), other content types, unprotected delivery, delivery then close, TLS 1.3 padding/outer type, a handshake message of each of 24 types (empty / tiny) in front; per message: every body truncation with fixed-up and with stale header length (and stale + close), 8 header length values, trailing bytes, every inner length field {0,1,-1,+1,max}, every inner vector emptied / shortened / extended with all enclosing lengths adjusted, every body byte through {00,01,7f,80,ff,^01,^80}, the body under each other handshake type (quick: every offset of bodies <=40 bytes, else first 8/last 4, all bytes of and around length fields, stride 6; thorough: every offset); in front of data-phase records: KeyUpdate with every request byte 0..255 (+ empty, long, fragmented, coalesced, x15/16/17/33), NewSessionTicket variants, HelloRequest / ClientHello / ServerHello as renegotiation attempts, all 24 handshake types, alert level x description grid, empty and 16384/16385-byte fragments of every content type, 64 KiB handshake messages, unprotected records (quick: in front of the first data record of each direction, full menu in 3 configurations and a covering slice in the others; thorough: full menu at every data record). " +
+	c.Rule("(1) wire faults — for each of 13 (thorough 22) configurations (TLS 1.0-1.3, RSA/ECDHE/DHE, client auth, resumption, zcrypto scan extras, ExternalClientHello, ClientFingerprintConfiguration+CertsOnly, and two TLS 1.3 HelloRetryRequest configurations — client CurvePreferences [X25519, P-256] with an X25519 share only against a server with [P-256] and an AES + a ChaCha suite, full and PSK-resumed, so that the clear flights are ClientHello, HelloRetryRequest, CCS, ClientHello#2, ServerHello) the baseline transcript of real client<->real server (handshake + data phase), then EVERY fault of the menu {xor 01/80, set 00/ff at each offset (quick: every offset in the first 96 / last 24 bytes of each record, stride 5 elsewhere; coarser on the server flight of the two ClientHello-construction configurations), truncate, drop/dup/swap record, 13 inserted records at every boundary, record length/type/version values, handshake type/length values, record split/coalesce, read segmentation} as a single fault; and for EVERY plaintext handshake message of the HelloRetryRequest configurations (thorough: of every configuration) the structure-aware message menu of (2) applied to the clear record (re-framed, no sealing needed): every body truncation with fixed-up / stale header, 8 header length values, trailing bytes, every inner length field {0,1,-1,+1,max} and every inner vector emptied / shortened / extended with all enclosing lengths adjusted (ClientHello session_id, cipher_suites, compression_methods, extension block, each extension and inside it server_name, supported_groups, point formats, signature_algorithms, ALPN, supported_versions, cookie, psk_key_exchange_modes, pre_shared_key identities / binders, key_share client_shares / key_exchange, renegotiation_info; ServerHello / HelloRetryRequest session_id, extension block, key_share, cookie), every extension removed / duplicated, each of 41 extensions (12 types incl. cookie, key_share, supported_versions, pre_shared_key, early_data x empty / small bodies) appended to every extension block, every body byte through 7 values, the body under each other handshake type, the message twice in one record, a message of each of 24 types in front of / behind it in the same record, an earlier clear message of the same direction in its place. " +
+		"(2) keyed faults — for each of 8 (thorough 16) keyed configurations (TLS 1.3 with each of its 3 suites incl. client auth, PSK resumption, tickets, ALPN/OCSP/SCT; TLS 1.0-1.2 with GCM, ChaCha20, CBC implicit/explicit IV, 3DES, RC4, renegotiation allowed) every PROTECTED record of the baseline (TLS 1.3: EncryptedExtensions, CertificateRequest, Certificate, CertificateVerify, Finished, NewSessionTicket, client Certificate/CertificateVerify/Finished, data, alerts; TLS<=1.2: both Finished, data, alerts) is opened in flight with the KeyLogWriter secrets, edited in plaintext and re-sealed under the receiver's keys and sequence number: drop, duplicate, swap/coalesce with the next record, fragmentation (quick 7 offsets, thorough every offset), other content types, unprotected delivery, delivery then close, TLS 1.3 padding/outer type, a handshake message of each of 24 types (empty / tiny) in front; per message: every body truncation with fixed-up and with stale header length (and stale + close), 8 header length values, trailing bytes, every inner length field {0,1,-1,+1,max}, every inner vector emptied / shortened / extended with all enclosing lengths adjusted, every extension removed / duplicated and each of 41 extensions appended to every extension block, every body byte through {00,01,7f,80,ff,^01,^80}, the body under each other handshake type (quick: every offset of bodies <=40 bytes, else first 8/last 4, all bytes of and around length fields, stride 6; thorough: every offset); in front of data-phase records: KeyUpdate with every request byte 0..255 (+ empty, long, fragmented, coalesced, x15/16/17/33), NewSessionTicket variants, HelloRequest / ClientHello / ServerHello as renegotiation attempts, all 24 handshake types, alert level x description grid, empty and 16384/16385-byte fragments of every content type, 64 KiB handshake messages, unprotected records (quick: in front of the first data record of each direction, full menu in 3 configurations and a covering slice in the others; thorough: full menu at every data record). " +
 		"(3) raw peers — every 0,1,2-byte stream and 6^5 record headers x 4 tails against each role, and for every non-resuming configuration every record-boundary prefix of the peer's genuine stream (protected records included: the endpoints are deterministic) followed by each of 70 inserts and EOF, all sent at once. (4) SSLv3: client-only / server-only / both / SSLv3..TLS1.0 configurations and a raw SSLv3 ClientHello + 70 inserts against a server allowing SSLv3. " +
 		"(5) local transport failures — the net.Conn of the endpoint under test (EUT; client and server in turn, the peer being the real endpoint of the other role) is wrapped and its Write fails from some call onward with each error kind {permanent io.ErrClosedPipe, timeout net.Error, 1 / 5 / half / len-1 bytes written + error; thorough also ECONNRESET and a temporary net.Error}: (5.1) from EVERY transport write k of the fault-free run of every wire and keyed configuration (each handshake flight, CCS+Finished, tickets, every application-data record, close_notify) x 6 (thorough 11) kinds; (5.2) from the moment the EUT's Read begins to consume each keyed data-phase insert of (2): a first run (permanent error, EUT in Read) tells whether the insert elicits a transport write inside the Read that consumes it (KeyUpdate reply, alert for renegotiation attempts / unexpected handshake types / malformed KeyUpdate / NewSessionTicket to a server / unknown alert levels / oversized and odd records), and if so (quick: for the inserts of the covering slice, thorough: all and in front of every data record) 3 (thorough 6) kinds x {EUT in Read only, a concurrent Write parked in its transport write, a concurrent Close parked in its close_notify write} follow; (5.3) from the moment the EUT consumed the faulted bytes — so the alert it answers with fails — for every 5th fault of the wire menu and every 3rd non-insert fault of the keyed menu of (1)/(2) with the 3 kinds in rotation (thorough: the whole quick menus x each of the 3 kinds). After the fault the EUT goes on like an application whatever the calls return: Handshake, Write/Read (client) or Read/Write (server), Close, ConnectionState, GetHandshakeLog + json, OCSPResponse, Read, Write, CloseWrite, Close. " +
-		"A case is non-trivial when the fault was reached by the stream; distinct = distinct (config,fault). For (2) the edited record must authenticate at the receiver for at least one case of every (configuration, message) class, else the run is CHECK-BROKEN.")
+		"A case is non-trivial when the fault was reached by the stream; distinct = distinct (config,fault). For (2) the edited record must authenticate at the receiver for at least one case of every (configuration, message) class, and for (1) every structure-aware edit class (configuration x clear message, which must include ClientHello#2 and HelloRetryRequest in the HelloRetryRequest configurations) must have been reached by the stream, else the run is CHECK-BROKEN.")
 	c.Assume("transport blocking is detected structurally (both endpoints parked in Read with nothing in flight => transport closes both directions)",
 		"a 20 s wall-clock net only marks suspects, which are re-run 3x sequentially before being reported",
 		"deterministic Rand/Time: the baseline offsets are stable across runs and processes (verified per configuration by running the baseline twice in every process)",
@@ -522,6 +522,16 @@ func supervise(c *ev.Ctx) {
 		}
 	}
 	c.Set("keyed_reached", table)
+	// every (configuration, plaintext handshake message) class of the structure-aware wire menu must have been reached by the stream
+	wtable := map[string]any{}
+	for _, cl := range m.WClasses {
+		v := total.Reached[cl]
+		wtable[cl] = map[string]int64{"cases": v[0], "edit_reached_the_receiver": v[1]}
+		if v[1] == 0 {
+			unreached = append(unreached, cl)
+		}
+	}
+	c.Set("wire_plaintext_message_reached", wtable)
 	c.Set("local_transport_counters", total.Counters)
 	// non-vacuity of the local-transport families
 	if !total.Stopped && crashes == 0 && c.NViolations() == 0 && len(total.Incomplete) == 0 {
@@ -550,6 +560,6 @@ func supervise(c *ev.Ctx) {
 		}
 	}
 	if len(unreached) > 0 && !total.Stopped && crashes == 0 {
-		c.Broken("keyed faults never authenticated at the receiver for: %s", strings.Join(unreached, "; "))
+		c.Broken("keyed faults never authenticated at the receiver / plaintext message edits never reached by the stream for: %s", strings.Join(unreached, "; "))
 	}
 }
